@@ -431,7 +431,7 @@ fn new_scene(tok: &[&str]) -> Scene {
 	Scene { mgr, tracks: vec![], sends: vec![], clocks: vec![], lfos: vec![], tweeners: vec![], sounds: vec![], fxs }
 }
 
-fn exec(sc: &mut Option<Scene>, l: &str, out: &mut Out) {
+fn exec(sc: &mut Option<Scene>, l: &str, out: &mut Out, collect: &mut Vec<f32>) {
 	let tok: Vec<&str> = l.split_whitespace().collect();
 	if tok[0] == "mgr" {
 		*sc = Some(new_scene(&tok));
@@ -798,6 +798,7 @@ fn exec(sc: &mut Option<Scene>, l: &str, out: &mut Out) {
 		}
 		"cb" => {
 			let buf = s.mgr.backend_mut().callback(pu(tok[1]) as usize, pu(tok[2]) as u16);
+			collect.extend_from_slice(&buf);
 			let scene = show_scene(s);
 			out.put(format!("{} ; {}", show_out(&buf), scene))
 		}
@@ -805,16 +806,94 @@ fn exec(sc: &mut Option<Scene>, l: &str, out: &mut Out) {
 	}
 }
 
+/// Implementation-side oracle (C11's clause with REAL components): a case whose header is
+/// `case <k> part <ibs2> <seed>` builds its whole scene with fixed values (settled parameters, immediate start
+/// times, no commands) before its first callback and then only renders 2-channel callbacks.  The same scene is
+/// built again with internal buffer size `ibs2` and rendered with another callback partition of the same total
+/// length: the two device sample streams must be IDENTICAL (every sound, effect, gain and sum advances per
+/// frame; with settled parameters the per-chunk interpolation returns the constant exactly).
+fn partition_oracle(case: &[String], base: &[f32], out: &mut Out) {
+	let head: Vec<&str> = case[0].split_whitespace().collect();
+	if head.len() < 5 || head[2] != "part" {
+		return;
+	}
+	let (ibs2, seed) = (pu(head[3]), pu(head[4]));
+	// premise: every scene-building op precedes the first callback, all callbacks have two channels
+	let mut seen_cb = false;
+	let mut total = 0usize;
+	for l in &case[1..] {
+		let tok: Vec<&str> = l.split_whitespace().collect();
+		if tok[0] == "cb" {
+			seen_cb = true;
+			if tok[2] != "2" {
+				return;
+			}
+			total += pu(tok[1]) as usize;
+		} else if seen_cb {
+			return;
+		}
+	}
+	if total == 0 || base.len() != total * 2 {
+		return;
+	}
+	let mut sc: Option<Scene> = None;
+	let mut sink = Out::new();
+	let mut other: Vec<f32> = vec![];
+	for l in &case[1..] {
+		if l.starts_with("cb") {
+			continue;
+		}
+		if l.starts_with("mgr") {
+			let mut tok: Vec<String> = l.split_whitespace().map(|x| x.to_string()).collect();
+			tok[1] = ibs2.to_string();
+			exec(&mut sc, &tok.join(" "), &mut sink, &mut other);
+		} else {
+			exec(&mut sc, l, &mut sink, &mut other);
+		}
+	}
+	let mut rng = Rng::new(seed);
+	let mut left = total;
+	while left > 0 {
+		let n = match rng.below(4) {
+			0 => 1,
+			1 => ibs2 as usize,
+			2 => rng.below(40) as usize + 1,
+			_ => rng.below(500) as usize + 1,
+		}
+		.min(left);
+		exec(&mut sc, &format!("cb {} 2", n), &mut sink, &mut other);
+		left -= n;
+	}
+	if let Some(i) = (0..base.len()).find(|&i| base[i].to_bits() != other[i].to_bits()) {
+		out.oracle_fail(
+			"buffer_size_invariance",
+			format!(
+				"{} :: frame {} ch {}: {} (as given) vs {} (ibs {}, partition seed {})",
+				case[0],
+				i / 2,
+				i % 2,
+				h32(base[i]),
+				h32(other[i]),
+				ibs2,
+				seed
+			),
+		);
+	}
+}
+
 pub fn run(ops: &[String]) -> Vec<String> {
 	run_cases(ops, Some(Duration::from_secs(20)), |case: &[String], out: &mut Out| {
 		let mut sc: Option<Scene> = None;
+		let mut base: Vec<f32> = vec![];
 		for l in case {
 			if l.starts_with("case") {
 				out.put(l.clone());
 				continue;
 			}
-			exec(&mut sc, l, out);
+			exec(&mut sc, l, out, &mut base);
 		}
+		drop(sc);
+		partition_oracle(case, &base, out);
 	})
 }
 
@@ -1295,11 +1374,73 @@ fn gen_case(rng: &mut Rng, thorough: bool, stats: &mut Stats, out: &mut Vec<Stri
 	out.push(format!("cb {} 2", rng.pick(&[64u64, 17, 200])));
 }
 
+/// a scene with settled parameters built before the first callback, then callbacks only (see `partition_oracle`)
+fn gen_part_case(rng: &mut Rng, stats: &mut Stats, out: &mut Vec<String>) {
+	let mut g = G { mods: false, ..G::default() };
+	g.ibs = rng.pick(&[1u64, 2, 3, 7, 16, 64, 128, 256]);
+	let sr = rng.pick(RATES);
+	let main_fx = gen_fx_list(rng, &mut g);
+	out.push(format!("mgr {} {} f{} {}", g.ibs, sr, o32(rng.pick(&[0.0f32, 0.0, -6.0, 6.0, -3.0])), main_fx));
+	for _ in 0..rng.range(0, 2) {
+		g.sends += 1;
+		out.push(format!("send {} {}", gen_db(rng, &g), gen_fx_list(rng, &mut g)));
+	}
+	for _ in 0..rng.range(0, 4) {
+		g.tracks += 1;
+		let sends = match rng.below(3) {
+			0 if g.sends > 0 => format!("{}={}", rng.below(3), gen_db(rng, &g)),
+			_ => "-".to_string(),
+		};
+		out.push(format!("track {} {} {} {} {}", rng.range(-1, 3), gen_db(rng, &g), rng.below(2), sends, gen_fx_list(rng, &mut g)));
+	}
+	for _ in 0..rng.range(1, 5) {
+		let len = rng.pick(&[1u64, 2, 10, 64, 100, 1000, 4000]);
+		let sr2 = rng.pick(&[100u64, 8000, 22050, 44100, 48000]);
+		let coding = match rng.below(4) {
+			0 => "idx".to_string(),
+			1 => "lr".to_string(),
+			2 => format!("dc={}", o32(rng.pick(&[0.25f32, -0.5]))),
+			_ => format!("rnd={}", rng.below(1 << 30)),
+		};
+		let lp = if rng.chance(1, 2) { gen_valid_loop(rng, len, sr2) } else { "none".to_string() };
+		let reverse = rng.chance(1, 5);
+		g.sounds += 1;
+		out.push(format!(
+			"play {} {} {} {} f{} f{} f{} {} {} n={} - imm",
+			rng.range(-1, 4),
+			coding,
+			len,
+			sr2,
+			o32(rng.pick(&[0.0f32, -6.0, -20.0, -60.0, 3.0])),
+			o64(rng.pick(&[1.0, 1.0, 0.5, 2.0, -1.0, 1.0 / 3.0, 1.4142135623730951, 0.0])),
+			o32(rng.pick(PANS)),
+			lp,
+			reverse as u8,
+			rng.pick(&[0, 0, (len - 1) / 2])
+		));
+	}
+	for _ in 0..rng.range(2, 6) {
+		let frames = match rng.below(5) {
+			0 => 1,
+			1 => g.ibs,
+			2 => g.ibs * 2 + 1,
+			_ => rng.below(250) + 1,
+		};
+		out.push(format!("cb {} 2", frames.min(500)));
+	}
+	stats.hit("part_case");
+}
+
 pub fn gen(rng: &mut Rng, n: usize, thorough: bool, stats: &mut Stats) -> Vec<String> {
 	let mut out = vec![];
 	for case in 0..n {
-		out.push(format!("case {}", case));
-		gen_case(rng, thorough, stats, &mut out);
+		if rng.chance(1, 5) {
+			out.push(format!("case {} part {} {}", case, rng.pick(&[1u64, 2, 5, 7, 32, 64, 100, 256]), rng.below(1 << 30)));
+			gen_part_case(rng, stats, &mut out);
+		} else {
+			out.push(format!("case {}", case));
+			gen_case(rng, thorough, stats, &mut out);
+		}
 	}
 	out
 }
